@@ -7,6 +7,7 @@ package main
 
 import (
 	"fmt"
+	"io"
 	"math/rand"
 	"os"
 	"path/filepath"
@@ -16,6 +17,7 @@ import (
 	"time"
 
 	"github.com/evolbioinfo/goalign/align"
+	"github.com/evolbioinfo/goalign/io/utils"
 )
 
 type phOpts struct {
@@ -168,7 +170,9 @@ func phasentCli(dir string, seqs, refs [][]int, o phOpts, cpus int) (ev phEvent,
 	if o.Translate || !cok {
 		return ev, nil, false
 	}
-	in, out, nt, aa, lg, rf := filepath.Join(dir, "ph_in.fa"), filepath.Join(dir, "ph_out.fa"), filepath.Join(dir, "ph_nt.fa"), filepath.Join(dir, "ph_aa.fa"), filepath.Join(dir, "ph_log.txt"), filepath.Join(dir, "ph_ref.fa")
+	// (the three outputs take turns at being written compressed: every one of them must be complete and closed)
+	ext := func(k int) string { return []string{"", ".gz", ".xz"}[(len(seqs)+cpus+k)%3] }
+	in, out, nt, aa, lg, rf := filepath.Join(dir, "ph_in.fa"), filepath.Join(dir, "ph_out.fa"+ext(0)), filepath.Join(dir, "ph_nt.fa"+ext(1)), filepath.Join(dir, "ph_aa.fa"+ext(2)), filepath.Join(dir, "ph_log.txt"), filepath.Join(dir, "ph_ref.fa")
 	for _, f := range []string{out, nt, aa, lg} {
 		os.Remove(f)
 	}
@@ -201,8 +205,37 @@ func phasentCli(dir string, seqs, refs [][]int, o phOpts, cpus int) (ev phEvent,
 		}
 		return ev, nil, true
 	}
-	rd := func(p string) string { b, _ := os.ReadFile(p); return string(b) }
+	rd := func(p string) string {
+		c, r, err := utils.GetReader(p)
+		if err != nil {
+			return ""
+		}
+		defer c.Close()
+		b, _ := io.ReadAll(r)
+		return string(b)
+	}
 	mo, mn, ma := fastaMap(rd(out)), fastaMap(rd(nt)), fastaMap(rd(aa))
+	if (len(seqs)+cpus)%2 == 0 {
+		// every other time the codon sequences are taken from a second run that asks for them only (no --aa-output, no log)
+		nt2 := filepath.Join(dir, "ph_nt2.fa"+ext(1))
+		os.Remove(nt2)
+		argv2 := []string{}
+		for k := 0; k < len(argv); k++ {
+			switch argv[k] {
+			case "--aa-output", "-l":
+				k++
+			case "--nt-output":
+				argv2 = append(argv2, "--nt-output", nt2)
+				k++
+			default:
+				argv2 = append(argv2, argv[k])
+			}
+		}
+		if _, _, rc2 := runGoalign(nil, argv2...); rc2 == 0 {
+			mn = fastaMap(rd(nt2))
+			ev.Msg += " ; goalign " + strings.Join(argv2, " ")
+		}
+	}
 	lines := strings.Split(rd(lg), "\n")
 	seen := map[int]bool{}
 	for k, l := range lines {
